@@ -201,6 +201,74 @@ def check_net(ctx, root, ncols, rs, cap, tag, hist=None):
     return len(X)
 
 
+def special_streams(ctx):
+    """(a) double-precision inputs that are not single-precision numbers, placed where the density is sensitive to the last bits
+    (closed support edges of Uniform leaves, one ulp beside a histogram break, narrow Gaussians far from the origin): the query is
+    about the GIVEN point; (b) peaked densities: products of many narrow leaves whose log-density is far above 0 (and far below):
+    the log-domain query must not pass through the linear domain. Reference: log-domain recursion over the parameters."""
+    from deeprob.spn.structure.node import Sum, Product
+    floor = iso_floor()
+    quick = ctx.tier == 'quick'
+    for k in range(60 if quick else 600):
+        rs = np.random.RandomState(np_seed(ctx.sub_rng('special', k)))
+        mode = k % 3
+        if mode < 2:
+            # (a) sensitive double-precision points
+            a, w = float(rs.choice([0.7, 0.1, -3.3, 12.6])), float(rs.choice([0.2, 0.3, 1.7]))
+            mu, sd = float(rs.choice([1000.0, -250.0, 3.0])), float(rs.choice([1e-4, 1e-3, 0.5]))
+            br = np.cumsum([0.0] + [float(t) for t in rs.choice([0.1, 0.25, 0.7], size=3)]) + float(rs.choice([0.0, 0.3]))
+            d = rs.rand(3) + 0.1
+            leaves0 = [Uniform(0, start=a, width=w), Uniform(0, start=a - 0.5 * w, width=2 * w)]
+            leaves1 = [Gaussian(1, mu, sd), Gaussian(1, mu + 2 * sd, sd)]
+            leaves2 = [Isotonic(2, densities=(d / d.sum()).tolist(), breaks=br.tolist()), Uniform(2, start=float(br[0]), width=float(br[-1] - br[0]))]
+            w0 = rs.dirichlet(np.ones(2)).astype(np.float32)
+            comps = [Product(children=[leaves0[i], leaves1[j], leaves2[l]]) for i, j, l in [(0, 0, 0), (1, 1, 1), (0, 1, 0)]]
+            w3 = rs.dirichlet(np.ones(3)).astype(np.float32)
+            root = assign_ids(Sum(children=comps, weights=(w3 / w3.sum()).astype(np.float32)))
+            b32 = [float(t) for t in np.asarray(leaves2[0].breaks, dtype=np.float64)]
+            # (the upper edge a + w is left out: SciPy standardises (x - a) / w, which rounds to 1 + 2^-52 for some a, w — a point of
+            # discontinuity of the density, measure zero; the lower edge standardises to exactly 0)
+            xs0 = [a, np.nextafter(a, -np.inf), a + 0.1 * w, a + 0.9 * w, a + 1.4 * w, a + 1.6 * w]
+            xs1 = [mu + 0.5 * sd, mu - 1.25 * sd, mu + 2 * sd]
+            xs2 = [np.nextafter(b32[1], -np.inf), b32[1], np.nextafter(b32[2], -np.inf), 0.5 * (b32[0] + b32[1])]
+            X = np.array([[xs0[rs.randint(len(xs0))], xs1[rs.randint(len(xs1))], xs2[rs.randint(len(xs2))]] for _ in range(8)], dtype=np.float64)
+            tag, what = 'float64-sensitive-points', 'double-precision input'
+        else:
+            # (b) peaked / far-tail circuits
+            nvar = int(rs.randint(9, 14))
+            sd = float(rs.choice([1e-5, 1e-4]))
+            mus = rs.uniform(-2, 2, size=(2, nvar))
+            comps = [Product(children=[Gaussian(v, float(mus[c, v]), sd) for v in range(nvar)]) for c in range(2)]
+            if rs.rand() < 0.5:
+                mus[1] = mus[0] + sd * rs.uniform(-1, 1, size=nvar)        # a nearby component: every child value of the sum is large
+                comps[1] = Product(children=[Gaussian(v, float(mus[1, v]), sd) for v in range(nvar)])
+            root = assign_ids(Sum(children=comps, weights=np.array([0.4, 0.6], dtype=np.float32)))
+            X = np.array([mus[0] + sd * rs.uniform(-1, 1, size=nvar) for _ in range(3)] + [mus[0] + 40 * sd], dtype=np.float64)
+            if rs.rand() < 0.5:
+                X = X[:3]           # a batch without any far row
+            tag, what = 'peaked-densities', 'peaked circuit'
+        table, order, _, _ = S.export_net(root)
+        ctx.case(tag, nontrivial_key=(tag, k), sample=dict(stream=tag, nodes=len(table), rows=len(X)) if k < 3 else None)
+        ctx.count(tag)
+        rep = dict(kind='c01-special', table=table_with_py(table, order), rows=X.tolist(), dtype='float64')
+        try:
+            ll = np.asarray(log_likelihood(root, X), dtype=np.float64).reshape(-1)
+        except Exception as ex:
+            ctx.violation('c01-inference-raises', f'log_likelihood raised {type(ex).__name__}: {ex} on a {what}', replay=rep)
+            return
+        for r in range(len(X)):
+            ref = S.ref_logvalue(root, X[r], floor)
+            ctx.count('special-rows')
+            if ref < -1e30:
+                ok = ll[r] < -1e30
+            else:
+                ok = abs(ll[r] - ref) <= 2e-3 + 2e-5 * abs(ref)
+            if not ok:
+                ctx.violation('c01-loglik-vs-semantics:' + tag, f'log_likelihood {float(ll[r])!r} but the circuit over its parameters has log-value {ref!r} at the '
+                                                                f'{what} x={X[r].tolist()}', replay=dict(rep, rows=[X[r].tolist()]))
+                return
+
+
 CORPUS = [
     # F1 witness: histogram leaf, input outside the fitted range
     dict(kind='iso-ood', densities=[0.5, 0.5], breaks=[0.0, 1.0, 2.0], xs=[5.0, -1.0, 0.5, 1.5]),
@@ -257,6 +325,8 @@ def run(ctx):
         check_net(ctx, root, ncols, rs, cap, f'net{k}', hist)
         if ctx.n_new(with_input_only=True) >= 3:
             break
+    if ctx.n_new(with_input_only=True) == 0:
+        special_streams(ctx)
     ctx.notes.append('total mass is not enumerated by the model: it is evalNet with nothing observed, equal to the enumerated '
                      'sum by Circ.marg / C01_normalised; the implementation side is enumerated when the discrete domain is small')
 
@@ -278,9 +348,17 @@ def replay(rep):
         return replay_demo(rep['replay'])
     r = rep['replay']
     root, order = build_from_table(r['table'])
-    X = np.array(r['rows'], dtype=np.float32)
+    X = np.array(r['rows'], dtype=np.float64 if r.get('dtype') == 'float64' else np.float32)
     if X.size == 0:
         return True
+    if r.get('kind') == 'c01-special':
+        ll = np.asarray(log_likelihood(root, X), dtype=np.float64).reshape(-1)
+        okk = True
+        for rr in range(len(X)):
+            ref = S.ref_logvalue(root, X[rr], iso_floor())
+            print(f'row {X[rr].tolist()}: log_likelihood {float(ll[rr])}, log-value over the parameters {ref}')
+            okk = okk and ((ll[rr] < -1e30) if ref < -1e30 else abs(ll[rr] - ref) <= 2e-3 + 2e-5 * abs(ref))
+        return bool(okk)
     if r.get('history'):
         root, _ = build_from_table(r['history']['table0'])
         root = Hist.replay_history(root, r['history']['steps'])
